@@ -628,6 +628,21 @@ def odd_inputs_pass(rng, rec):
     keys, rs = knobs["keys"], knobs["res_sizes"]
     if any(k["scheme"] == "https" for k in keys) and rng.random() < 0.5:
         knobs["http_last_modified"] = rng.choice(["past", "past", "future"])
+    if rec["property"] == "C18" and rng.random() < 0.05 and not knobs.get("mass_eviction") and not knobs.get("wide"):
+        # (d) sparse files: three or four large objects that are mostly zero bytes, fetched by a downloader that seeks
+        # over the zero runs, into a cache that holds about two of them (a cache that sizes itself by allocated
+        # blocks instead of file lengths never evicts them)
+        size = rng.choice([40_000, 65_536, 70_001])
+        first = len(keys)
+        for j in range(rng.randint(3, 4)):
+            rs["sparse%d.nc" % j] = size
+            keys.append({"scheme": "sim", "res": "sparse%d.nc" % j, "comment": "", "pp": False, "val": False})
+        knobs["sparse_writer"] = True
+        knobs["max_bytes"] = max(knobs["max_bytes"], int(size * rng.choice([1.2, 2.2, 2.6])))
+        nid = max([o["id"] for o in rec["ops"] if isinstance(o["id"], int)] + [0]) + 1
+        seq = [{"id": nid + 900 + j, "op": "GET", "keys": [first + j], "dt": 10**9} for j in range(len(keys) - first)]
+        seq.append({"id": nid + 950, "op": "GET", "keys": [first, first + 1], "dt": 10**9})
+        rec["ops"] = rec["ops"] + seq
     if rec["property"] == "C19" and rng.random() < 0.08:
         # (c) downloads and post-processors that fail with an exception deriving from Warning (a numpy/xarray
         # warning in a process run with -W error)
